@@ -539,6 +539,11 @@ func init() {
 			os.MkdirAll(run.home, 0755)
 			// key pool
 			nk := 2 + r.Intn(6)
+			if mode == "gc" && r.Chance(50) { // dense profile: many live records in small files, so that GC fills and switches destinations
+				cf.FileMax = []int64{1024, 1536}[r.Intn(2)]
+				run.cfg.FileMax = cf.FileMax
+				nk = 8 + r.Intn(7)
+			}
 			var keys [][]byte
 			for len(keys) < nk {
 				keys = append(keys, validKeyInBucket(r, cf.NB, cf.Bucket, nil))
